@@ -71,7 +71,16 @@ func (d *Decoder) checkCompressed(head byte) (compress string) {
 // ErrEND error will be returned when reading a NBT with only Tag_End
 var ErrEND = errors.New("unexpected TAG_End")
 
+var errNestingTooDeep = errors.New("nbt: lists and compounds are nested too deeply")
+
 func (d *Decoder) unmarshal(val reflect.Value, tagType byte) error {
+	if tagType == TagList || tagType == TagCompound {
+		if d.depth >= maxNestingDepth {
+			return errNestingTooDeep
+		}
+		d.depth++
+		defer func() { d.depth-- }()
+	}
 	u, t, val, assign := indirect(val, tagType == TagEnd)
 	if assign != nil {
 		defer assign()
@@ -594,6 +603,13 @@ func indirect(v reflect.Value, decodingNull bool) (Unmarshaler, encoding.TextUnm
 
 // rawRead read and discard a value
 func (d *Decoder) rawRead(tagType byte) error {
+	if tagType == TagList || tagType == TagCompound {
+		if d.depth >= maxNestingDepth {
+			return errNestingTooDeep
+		}
+		d.depth++
+		defer func() { d.depth-- }()
+	}
 	var buf [8]byte
 	switch tagType {
 	default:
